@@ -6,7 +6,7 @@
    model of /bin/sh's token recogniser (Shell/Model.v).  That coreutils then do what the local filesystem API
    does is exercised by the behavioural comparison of the check, not proved. *)
 From Coq Require Import List Bool.
-From SF Require Import Base.Str Shell.Model Shell.Proofs RPath.Model RPath.Proofs.
+From SF Require Import Base.Str Shell.Model Shell.Proofs RPath.Model RPath.Proofs RPath.More.
 Import ListNotations.
 Local Open Scope list_scope. Local Open Scope string_scope.
 
@@ -21,6 +21,30 @@ Proof. exact argv_simple. Qed.
 Theorem C24_resolve_tokens : forall p,
   sh_lex (line OResolve p) = Some [W "test"; W "-e"; W p; Op "&&"; W "readlink"; W "-f"; W p].
 Proof. exact resolve_tokens. Qed.
+
+(* checksum: test -f p && sha1sum p | awk '{print $1}'  — whole line, the path verbatim twice *)
+Theorem C24_checksum_tokens : forall p,
+  sh_lex (line OChecksum p) =
+  Some [W "test"; W "-f"; W p; Op "&&"; W "sha1sum"; W p; Op "|"; W "awk"; W "{print $1}"].
+Proof. exact checksum_tokens. Qed.
+
+(* write_text: tee p > /dev/null *)
+Theorem C24_write_tokens : forall p,
+  sh_lex (line OWrite p) = Some [W "tee"; W p; Op ">"; W "/dev/null"].
+Proof. exact write_tokens. Qed.
+
+(* size and glob contain text the tokenizer fragment does not cover ({} \+ in find -exec; "$1", "$@" and the
+   deliberately interpreted pattern).  Proved: the line is <literal words> <quoted path> <tail that does not
+   depend on the path>, and the recogniser reaches that tail having read the path verbatim as (the beginning
+   of) the current word.  What the shell makes of the constant tail is exercised by the twin-tree runs only. *)
+Theorem C24_size_prefix_partial : forall p,
+  line OSize p = "find -L " ++ quote p ++ size_tail /\
+  forall acc, lex Norm false "" acc (line OSize p) = lex Norm true p (acc ++ [W "find"; W "-L"])%list size_tail.
+Proof. exact size_prefix. Qed.
+Theorem C24_glob_prefix_partial : forall p pat,
+  line (OGlob pat) p = "set -- " ++ quote p ++ glob_tail pat /\
+  forall acc, lex Norm false "" acc (line (OGlob pat) p) = lex Norm true p (acc ++ [W "set"; W "--"])%list (glob_tail pat).
+Proof. exact glob_prefix. Qed.
 
 (* any command made of literal safe words and quoted strings (reusable: C22) *)
 Theorem C24_quoted_fragments : forall fs, forallb frag_ok fs = true ->
@@ -46,5 +70,9 @@ Proof. vm_compute. repeat split; reflexivity. Qed.
 
 Print Assumptions C24_argv.
 Print Assumptions C24_resolve_tokens.
+Print Assumptions C24_checksum_tokens.
+Print Assumptions C24_write_tokens.
+Print Assumptions C24_size_prefix_partial.
+Print Assumptions C24_glob_prefix_partial.
 Print Assumptions C24_quoted_fragments.
 Print Assumptions C24_raw_path_refuted.
